@@ -187,6 +187,17 @@ def mon_c02(ctx, k, inp):
             else:
                 if pid != 0 or kids:
                     ctx.violation('state-child-disagree', '%s reported %s pid %d but the kernel holds %r for it (pass %d)' % (full, ST.get(st, st), pid, kids, b['passno']), inp)
+        # ---- what the API reports is the process's state and the pid of its child
+        rep = b.get('reported')
+        if rep is not None:
+            if '__error__' in rep:
+                ctx.violation('api-report-raised', 'getAllProcessInfo raised %s (pass %d)' % (rep['__error__'][0], b['passno']), inp)
+            else:
+                for full, (st, pid) in b['procs'].items():
+                    if full in rep and (rep[full][0] != st or rep[full][1] != pid):
+                        ctx.violation('api-report-differs', '%s: getAllProcessInfo reports state %s pid %d but the process is %s with child pid %d (pass %d)' % (
+                            full, ST.get(rep[full][0], rep[full][0]), rep[full][1], ST.get(st, st), pid, b['passno']), inp)
+                ctx.count('api-reports-compared', len(rep))
         # ---- zombies are reaped within the passes the 100-per-pass limit allows
         zs = [pid for kids in kern.values() for pid, s in kids if s == 'zombie']
         for pid in zs:
